@@ -772,6 +772,7 @@ static void et_run_case(const char *profile, uint64_t seed, uint64_t idx)
   ET_CNT("callback.total", et_cb_total);
   ET_CNT("callback.on_library_thread", et_cb_on_lib);
   ET_CNT("callback.issued_new_request", et_cb_chained);
+  ET_CNT("callback.cancelled_all_then_issued_new_request", et_cb_cancel_then_chain);
   ET_CNT("callback.after_destroy", et_cb_late_total);
   ET_CNT("configchg_rewrites", et_n_confchg_rewrites);
   ET_CNT("configchg_rewrites_inplace", et_n_confchg_inplace);
